@@ -195,7 +195,7 @@ func loBuild(p loP) (*world.World, *http.Request, *loTruth) {
 	}
 	switch p.Payload {
 	case "ill-formed":
-		doc = doc[:len(doc)-4]
+		doc = cutRootEndTag(doc)
 	case "empty":
 		doc = []byte{}
 	}
